@@ -162,6 +162,7 @@ private:
         long long reqbody = 0, resbody = 0; int req_eob = 0, res_eob = 0; int last_status = 0;
         int reqprog = 0, resprog = 0; int seen100 = 0;
         bool txreq_hook = false, txres_hook = false; // our per-transaction body hooks are registered (they fire before the config-level ones)
+        bool req_body_nonok = false, res_body_nonok = false; // one of our body callbacks returned non-OK: the library may legitimately stop delivering (no end marker owed)
         unsigned tflags = 0; // trace points 5/6/7 seen for this transaction (deliberate tolerance branches)
     };
     std::string tsuffix(const TxM &m, unsigned mask) const;
